@@ -1,6 +1,9 @@
 use crate::data::*;
 
+#[cfg(not(kiki_verif))]
 use std::collections::HashSet;
+#[cfg(kiki_verif)]
+use crate::verif_collections::HashSet;
 use std::fmt::{self, Display, Formatter};
 
 #[derive(Debug, Clone)]
